@@ -110,6 +110,11 @@ let parse_case toks =
           f_exit = (if d.ex < 0 then None else Some (nat_of_int d.ex)) }) fs) in
     { prog; nv; nf; nbs = Array.map (fun d -> d.nb) fs; opts; init = !init }
   | _ -> failwith "bad case"
+(* first name for the fresh copies: above every variable of the program and of the pool (initial
+   constraints and printed tables may mention pool variables the program does not use) *)
+let voff_of c =
+  let a = zarith_of_n (prog_voff c.prog) and b = ZA.of_int c.nv in
+  n_of_zarith (if ZA.compare a b >= 0 then a else b)
 let opt c k d = try List.assoc k c.opts with Not_found -> d
 let efuel = nat_of_int 400
 (* WTO of every function's CFG *)
@@ -128,7 +133,7 @@ let params c =
   (delay, desc)
 let eval toks =
   let c = parse_case toks in
-  let voff = prog_voff c.prog in
+  let voff = voff_of c in
   let (delay, desc) = params c in
   match wtos_of c with
   | None -> "MODEL-ERROR wto"
@@ -192,7 +197,7 @@ let parse_answer c answer =
   | _ -> None
 let validate toks answer =
   let c = parse_case toks in
-  let voff = prog_voff c.prog in
+  let voff = voff_of c in
   let (delay, desc) = params c in
   if opt c "an" "td" = "bu" && opt c "budom" "itv" <> "itv" then "skip"
   else match wtos_of c, parse_answer c answer with
@@ -214,7 +219,7 @@ let validate toks answer =
 (* diagnostic: which condition of the checker fails (not used by the checks) *)
 let explain toks answer =
   let c = parse_case toks in
-  let voff = prog_voff c.prog in
+  let voff = voff_of c in
   let (delay, desc) = params c in
   match wtos_of c, parse_answer c answer with
   | Some wtos, Some (tabs, sums) ->
